@@ -46,12 +46,14 @@ PROPERTIES = {
     level='exploration', exhaustive_claim=False,
     rule='model-based: generated object documents (1..10 keys; ints, strings, bools, doubles, int arrays, nested objects; MsgPack also integer / float / timestamp keys) in an envelope [padding 0..600, object, sentinel]; generated request scripts (any order, repeats, absent keys with int / string / optional / atomic / unique_ptr targets, nested object with sub-script, array read for j <= n elements, VisitKeys, early stop) executed through the public Serialize(scope, key, value) API; 4 archives x memory / stringstream / short-read stream; oracle = the document as a map + the sentinel behind the object',
     assumptions=TRUSTED + ['keys are unique, NUL-free; XML keys are Names and XML strings non-empty (KF-13)', 'nil / empty CSV cells are "not loaded" by design'],
-    units=[U('c03_scripts', 'c03_field_order.cpp', flavour='asan', libs=['-lpugixml'], quick=dict(cases=20000, shards=8, min_eval=50000), thorough=dict(cases=600000, shards=16, min_eval=1000000))]),
+    units=[U('c03_scripts', 'c03_field_order.cpp', flavour='asan', libs=['-lpugixml'], quick=dict(cases=20000, shards=8, min_eval=50000), thorough=dict(cases=600000, shards=16, min_eval=1000000)),
+           U('c03_scripts_chunk32', 'c03_field_order.cpp', flavour='asan32', libs=['-lpugixml'], args=['--skip-prefix', 'kf'], quick=dict(cases=10000, shards=4, min_eval=20000), thorough=dict(cases=300000, shards=8, min_eval=500000))]),
  'C05': dict(
     level='exploration', exhaustive_claim=False,
     rule='arbitrary trees (depth <= 3: arrays of scalars / of objects, objects holding arrays, byte containers) with 1..6 values at any depth replaced by certainly mismatching values (other scalar kind, string, array, object, out-of-range number; for text archives: unparsable text), loaded with both Skip policies into a sentinel-filled target of the clean shape + envelope sentinel; typed objects with Required() on every field; 4 archives, memory and streams; oracle = model_skip (clean document)',
     assumptions=TRUSTED + ['nil is "not loaded" under either policy (not used as an offence)', 'bool -> integer and (JSON) integer -> float are legal conversions, not offences', 'an int array for a byte container is legal (falls back to a regular array)'],
-    units=[U('c05_skip', 'c05_skip.cpp', flavour='asan', libs=['-lpugixml'], quick=dict(cases=20000, shards=8, min_eval=50000), thorough=dict(cases=600000, shards=16, min_eval=1000000))]),
+    units=[U('c05_skip', 'c05_skip.cpp', flavour='asan', libs=['-lpugixml'], quick=dict(cases=20000, shards=8, min_eval=50000), thorough=dict(cases=600000, shards=16, min_eval=1000000)),
+           U('c05_skip_chunk32', 'c05_skip.cpp', flavour='asan32', libs=['-lpugixml'], args=['--skip-prefix', 'kf'], quick=dict(cases=10000, shards=4, min_eval=20000), thorough=dict(cases=300000, shards=8, min_eval=500000))]),
  'C17': dict(
     level='exploration', exhaustive_claim=False,
     rule='object with 10 fields (int32, double, string, vector, e-mail, phone, uint8, nested object, array of objects, map of objects), each with 0..3 runtime-chosen validators out of Required / Range / MinSize / MaxSize / Email / PhoneNumber / custom functors + lambda, default or custom messages; every field present (at, just inside, just outside each bound), absent, null or mismatched-and-skipped; maxValidationErrors in {0,1,2,3,4,8}; 4 archives, memory and streams; oracle = reference model of the documented validator rules predicting failing paths and messages in load order',
@@ -84,7 +86,8 @@ PROPERTIES = {
     level='exploration', exhaustive_claim=False,
     rule='documents of all four archives (arbitrary trees in an envelope with 0..600 bytes of padding that shifts every token across the 256-byte chunk boundary; CSV tables with long cells), valid and mutated (substitute / delete / insert / truncate), loaded from memory and from stringstream / short-read (1..k bytes per call) / non-seekable streams; saving to a UTF-8 BOM-less stream vs memory; oracle = differential (same value, or rejection by both)',
     assumptions=TRUSTED + ['in-memory input is UTF-8 without BOM (the common domain of both entry points); mutated text documents stay well-formed UTF-8 (KF-52 recorded and witnessed)', 'non-seekable streams get in-order (unmodified) documents only', 'error categories: loaded / rejected by a SerializationException / validation / non-library exception'],
-    units=[U('c10_diff', 'c10_mem_vs_stream.cpp', flavour='asan', libs=['-lpugixml'], quick=dict(cases=30000, shards=8, min_eval=50000), thorough=dict(cases=1000000, shards=16, min_eval=1000000))]),
+    units=[U('c10_diff', 'c10_mem_vs_stream.cpp', flavour='asan', libs=['-lpugixml'], quick=dict(cases=30000, shards=8, min_eval=50000), thorough=dict(cases=1000000, shards=16, min_eval=1000000)),
+           U('c10_diff_chunk32', 'c10_mem_vs_stream.cpp', flavour='asan32', libs=['-lpugixml'], args=['--skip-prefix', 'kf'], quick=dict(cases=15000, shards=4, min_eval=20000), thorough=dict(cases=500000, shards=8, min_eval=500000))]),
  'C13': dict(
     level='exploration', exhaustive_claim=False,
     rule='generated texts whose multi-unit characters sit around the chunk boundary x 5 encodings x BOM on/off x target char types {char, char16_t, char32_t} x chunk sizes {32, 64, 256} x {stringstream, short-read streambuf} x both policies; every truncation point (sampled, biased to the last characters); CEncodedStreamWriter; DetectEncoding on strings and streams; CSV/JSON/XML documents written by the independent encoder loaded through the stream entry points; oracle = ref_utf + bounded call counter',
